@@ -3,6 +3,13 @@
 #include <oneapi/tbb/blocked_range.h>
 #include <oneapi/tbb/blocked_range2d.h>
 #include <oneapi/tbb/blocked_range3d.h>
+#include <oneapi/tbb/blocked_nd_range.h>
+#include <oneapi/tbb/parallel_for_each.h>
+#include <oneapi/tbb/parallel_invoke.h>
+#include <forward_list>
+#include <list>
+#include <iterator>
+#include <functional>
 #include <oneapi/tbb/global_control.h>
 #include <cstdio>
 #include <cstdlib>
@@ -17,6 +24,8 @@ static std::map<std::string, long long> in;
 static bool has(const char* k) { return in.count(k) != 0; }
 static long long get(const char* k, long long d = 0) { return has(k) ? in[k] : d; }
 
+static char g_what[300];
+static void on_hang(int) { char buf[500]; int n = std::snprintf(buf, sizeof buf, "REPRODUCED class=loop-hang %s did not return within 20 s\n", g_what); write(1, buf, n); _exit(0); }
 static char g_case[300];
 static void on_alarm(int) { char buf[400]; int n = std::snprintf(buf, sizeof buf, "REPRODUCED class=pfor-span-exceeds-index-max %s did not return within 20 s (the negative trip count makes an 'empty' range that is_divisible() forever)\n", g_case); write(1, buf, n); _exit(0); }
 template <class Index> static bool pfor_case(const char* tn, long long first, long long last, long long step) {
@@ -117,17 +126,117 @@ static int replay_split(const std::string& job) {
 
 // whole-algorithm sweep: every index exactly once, chunk sizes legal, for the four partitioners
 static int replay_exec() {
+    signal(SIGALRM, on_hang);
     for (int threads : {1, 4}) {
         tbb::global_control gc(tbb::global_control::max_allowed_parallelism, threads);
         for (size_t n : {1u, 2u, 3u, 7u, 8u, 9u, 63u, 64u, 65u, 1000u, 4097u}) for (size_t g : {1u, 2u, 3u, 8u, 100u}) for (int part = 0; part < 4; ++part) {
             std::vector<std::atomic<int>> hit(n); std::atomic<int> bad{0};
+            std::snprintf(g_what, sizeof g_what, "parallel_for(blocked_range<size_t>(0,%zu,%zu), partitioner #%d, %d threads)", n, g, part, threads); alarm(20);
             auto body = [&](const tbb::blocked_range<size_t>& r) { if (r.empty()) ++bad; if (part == 0 && n > g && (r.size() > g || 2 * r.size() < g)) ++bad; for (size_t i = r.begin(); i < r.end(); ++i) ++hit[i]; };
             tbb::blocked_range<size_t> R(0, n, g); tbb::affinity_partitioner ap;
             if (part == 0) tbb::parallel_for(R, body, tbb::simple_partitioner()); else if (part == 1) tbb::parallel_for(R, body, tbb::auto_partitioner());
             else if (part == 2) tbb::parallel_for(R, body, tbb::static_partitioner()); else tbb::parallel_for(R, body, ap);
+            alarm(0);
             for (size_t i = 0; i < n; ++i) if (hit[i] != 1) ++bad;
             if (bad) { std::printf("REPRODUCED class=loop-coverage parallel_for(blocked_range<size_t>(0,%zu,%zu), partitioner #%d, %d threads): %d violations (index not visited exactly once / illegal chunk)\n", n, g, part, threads, bad.load()); return 0; }
         }
+    }
+    std::printf("NOT-REPRODUCED\n"); return 0;
+}
+
+
+// blocked_nd_range<size_t,2>: the dimension that is split must itself be divisible
+static int replay_nd() {
+    using R = tbb::blocked_range<size_t>;
+    struct D { size_t b, e, g; };
+    auto chk = [&](D r, D c) {
+        auto div = [](D d) { return d.g < d.e - d.b; };
+        tbb::blocked_nd_range<size_t, 2> x(R(r.b, r.e, r.g), R(c.b, c.e, c.g));
+        if (!x.is_divisible()) return false;
+        tbb::blocked_nd_range<size_t, 2> y(x, tbb::split());
+        bool bad = (!div(r) && (x.dim(0).end() != r.e || y.dim(0).begin() != r.b)) || (!div(c) && (x.dim(1).end() != c.e || y.dim(1).begin() != c.b));
+        size_t lim = size_t(1) << 52; bool big = (r.e - r.b) > lim || (c.e - c.b) > lim || r.g > lim || c.g > lim;
+        if (bad) { std::printf("REPRODUCED class=%s blocked_nd_range<size_t,2>({%zu,%zu,%zu},{%zu,%zu,%zu}) split with tbb::split(): a dimension with size <= grainsize was split: halves [%zu,%zu)x[%zu,%zu) and [%zu,%zu)x[%zu,%zu)\n",
+                               big ? "nd-split-nondivisible-dim-above-2^52" : "nd-split-nondivisible-dim", r.b, r.e, r.g, c.b, c.e, c.g,
+                               x.dim(0).begin(), x.dim(0).end(), x.dim(1).begin(), x.dim(1).end(), y.dim(0).begin(), y.dim(0).end(), y.dim(1).begin(), y.dim(1).end()); return true; }
+        return false;
+    };
+    for (size_t rs = 1; rs <= 8; ++rs) for (size_t rg = 1; rg <= 8; ++rg) for (size_t cs = 1; cs <= 8; ++cs) for (size_t cg = 1; cg <= 8; ++cg) if (chk({3, 3 + rs, rg}, {7, 7 + cs, cg})) return 0;
+    if (has("IN_db[0]") || has("IN_db")) { }
+    if (chk({0, 5, 5}, {0, (size_t(1) << 60) + 1, size_t(1) << 60})) return 0;
+    if (chk({0, (size_t(1) << 60) + 1, size_t(1) << 60}, {0, 5, 5})) return 0;
+    std::printf("NOT-REPRODUCED\n"); return 0;
+}
+
+// blocked_nd_range<size_t,3>: the two halves of a split tile the parent (one dimension cut into adjacent non-empty parts, the others whole); is_divisible / empty
+static int replay_nd_split() {
+    using R = tbb::blocked_range<size_t>;
+    for (size_t a = 0; a <= 5; ++a) for (size_t ag = 1; ag <= 3; ++ag) for (size_t b = 0; b <= 5; ++b) for (size_t bg = 1; bg <= 3; ++bg) for (size_t c = 0; c <= 5; ++c) for (int prop = 0; prop < 2; ++prop) {
+        size_t lo[3] = {2, 10, 20}, n[3] = {a, b, c}, g[3] = {ag, bg, 2};
+        tbb::blocked_nd_range<size_t, 3> x(R(lo[0], lo[0] + n[0], g[0]), R(lo[1], lo[1] + n[1], g[1]), R(lo[2], lo[2] + n[2], g[2]));
+        bool div = false, em = false; for (int d = 0; d < 3; ++d) { div = div || g[d] < n[d]; em = em || n[d] == 0; }
+        if (x.is_divisible() != div || x.empty() != em) { std::printf("REPRODUCED class=nd-predicates blocked_nd_range<size_t,3> sizes %zu,%zu,%zu grains %zu,%zu,2: is_divisible()=%d (expected %d) empty()=%d (expected %d)\n", a, b, c, ag, bg, (int)x.is_divisible(), (int)div, (int)x.empty(), (int)em); return 0; }
+        if (!div || em) continue;
+        tbb::blocked_nd_range<size_t, 3> y = prop ? tbb::blocked_nd_range<size_t, 3>(x, tbb::proportional_split(2, 1)) : tbb::blocked_nd_range<size_t, 3>(x, tbb::split());
+        int cut = 0; bool bad = false;
+        for (int d = 0; d < 3; ++d) {
+            bool whole_x = x.dim(d).begin() == lo[d] && x.dim(d).end() == lo[d] + n[d], whole_y = y.dim(d).begin() == lo[d] && y.dim(d).end() == lo[d] + n[d];
+            if (whole_x && whole_y) continue;
+            ++cut;
+            if (!(x.dim(d).begin() == lo[d] && y.dim(d).end() == lo[d] + n[d] && x.dim(d).end() == y.dim(d).begin() && !x.dim(d).empty() && !y.dim(d).empty())) bad = true;
+        }
+        if (cut != 1 || bad) { std::printf("REPRODUCED class=nd-split-tiling blocked_nd_range<size_t,3> sizes %zu,%zu,%zu grains %zu,%zu,2 %s: %d dimensions changed, halves %s tile the parent\n", a, b, c, ag, bg, prop ? "proportional_split(2,1)" : "split()", cut, bad ? "do NOT" : "do"); return 0; }
+    }
+    std::printf("NOT-REPRODUCED\n"); return 0;
+}
+
+// ---- parallel_for_each: input / forward / random-access iterators, with and without feeder: every element exactly once, every fed item exactly once
+struct in_iter {          // a single-pass input iterator over 0..n-1
+    using iterator_category = std::input_iterator_tag; using value_type = int; using difference_type = std::ptrdiff_t; using pointer = const int*; using reference = int;
+    int pos; int operator*() const { return pos; } in_iter& operator++() { ++pos; return *this; } in_iter operator++(int) { in_iter t = *this; ++pos; return t; }
+    bool operator==(const in_iter& o) const { return pos == o.pos; } bool operator!=(const in_iter& o) const { return pos != o.pos; }
+};
+static int replay_pfe() {
+    signal(SIGALRM, on_hang);
+    for (int threads : {1, 4}) {
+        tbb::global_control gc(tbb::global_control::max_allowed_parallelism, threads);
+        for (int n = 0; n <= 21; ++n) for (int kind = 0; kind < 3; ++kind) for (int feed = 0; feed < 2; ++feed) {
+            std::snprintf(g_what, sizeof g_what, "parallel_for_each(%s iterators, %d elements, %s feeder, %d threads)", kind == 0 ? "input" : kind == 1 ? "forward" : "random-access", n, feed ? "with" : "without", threads);
+            alarm(20);
+            std::vector<std::atomic<int>> hit(2 * n + 2); std::atomic<int> outside{0};
+            auto plain = [&](int v) { if (v < 0 || v >= n) ++outside; else ++hit[v]; };
+            auto feeding = [&](int v, tbb::feeder<int>& f) { if (v < 0 || v >= 2 * n) { ++outside; return; } ++hit[v]; if (v < n) f.add(n + v); };      // every original element adds one more item
+            std::forward_list<int> fl; std::vector<int> vec; for (int i = n - 1; i >= 0; --i) fl.push_front(i); for (int i = 0; i < n; ++i) vec.push_back(i);
+            if (kind == 0) { if (feed) tbb::parallel_for_each(in_iter{0}, in_iter{n}, feeding); else tbb::parallel_for_each(in_iter{0}, in_iter{n}, plain); }
+            else if (kind == 1) { if (feed) tbb::parallel_for_each(fl.begin(), fl.end(), feeding); else tbb::parallel_for_each(fl.begin(), fl.end(), plain); }
+            else { if (feed) tbb::parallel_for_each(vec.begin(), vec.end(), feeding); else tbb::parallel_for_each(vec.begin(), vec.end(), plain); }
+            alarm(0);
+            int missing = 0, dup = 0; int total = feed ? 2 * n : n;
+            for (int i = 0; i < total; ++i) { if (hit[i] == 0) ++missing; if (hit[i] > 1) ++dup; }
+            if (missing || dup || outside) { std::printf("REPRODUCED class=pfe-coverage %s: %d items never processed, %d processed more than once, %d values outside the sequence\n", g_what, missing, dup, outside.load()); return 0; }
+        }
+    }
+    std::printf("NOT-REPRODUCED\n"); return 0;
+}
+
+// ---- parallel_invoke with 2..13 functions: every function exactly once
+template <size_t... I> static void invoke_n(std::vector<std::atomic<int>>& hit, std::index_sequence<I...>) { tbb::parallel_invoke([&hit] { ++hit[I]; }...); }
+template <size_t N> static bool invoke_case(int threads) {
+    std::snprintf(g_what, sizeof g_what, "parallel_invoke with %zu functions, %d threads", N, threads); alarm(20);
+    std::vector<std::atomic<int>> hit(N);
+    invoke_n(hit, std::make_index_sequence<N>());
+    alarm(0);
+    int missing = 0, dup = 0; for (auto& h : hit) { if (h == 0) ++missing; if (h > 1) ++dup; }
+    if (missing || dup) { std::printf("REPRODUCED class=invoke-coverage %s: %d functions never called, %d called more than once\n", g_what, missing, dup); return true; }
+    return false;
+}
+static int replay_invoke() {
+    signal(SIGALRM, on_hang);
+    for (int threads : {1, 4}) {
+        tbb::global_control gc(tbb::global_control::max_allowed_parallelism, threads);
+        for (int rep = 0; rep < 20; ++rep)
+            if (invoke_case<2>(threads) || invoke_case<3>(threads) || invoke_case<4>(threads) || invoke_case<5>(threads) || invoke_case<6>(threads) || invoke_case<7>(threads) || invoke_case<8>(threads)
+                || invoke_case<9>(threads) || invoke_case<10>(threads) || invoke_case<11>(threads) || invoke_case<13>(threads)) return 0;
     }
     std::printf("NOT-REPRODUCED\n"); return 0;
 }
@@ -139,5 +248,9 @@ int main(int argc, char** argv) {
     if (job.rfind("br2d", 0) == 0) return replay_2d(false);
     if (job.rfind("br3d", 0) == 0) return replay_2d(true);
     if (job.rfind("br.", 0) == 0) return replay_split(job);
+    if (job.rfind("nd.dim", 0) == 0) return replay_nd();
+    if (job.rfind("nd.", 0) == 0) return replay_nd_split();
+    if (job.rfind("pfe.", 0) == 0) return replay_pfe();
+    if (job.rfind("invoke.", 0) == 0) return replay_invoke();
     return replay_exec();
 }
